@@ -22,7 +22,7 @@ from . import common
 
 PROPERTY = "C20"
 LEVEL = "fault_enumeration"
-RUNS = {"quick": 1500, "thorough": 40000}
+RUNS = {"quick": 3000, "thorough": 40000}
 BATCH = 40
 EXHAUSTIVE_SWEEP = False
 RULE = ("(response kind x protocol x write index k x error class x partial-send x server type): a sweep "
@@ -233,7 +233,7 @@ def execute(sc, tape=None):
                 # not consequences of the injected failure (they are C03's business)
                 others = [r for r in recs if r[1] not in ("FileNotFound", want_cls)
                           and r[1] not in base_classes]
-                mine = [r for r in recs if r[1] == want_cls and r[0].startswith("10.9.8.7 ")]
+                mine = [l for l in run.log if "10.9.8.7" in l and want_cls in l]
                 if others:
                     viol = {"oracle": "logged-under-own-class",
                             "signature": dict(sig, oracle="logged-under-own-class", logged_as=others[0][1]),
